@@ -52,6 +52,11 @@ func c19rec(vals ...interface{}) {
 
 var c19Err = errors.New("c19 sentinel error")
 
+type c19U8 uint8
+type c19F32 float32
+type c19Name string
+type c19Flag bool
+
 type c19Fn struct {
 	name string
 	fn   interface{} // a Go function (or, for the notfunc cases, something else)
@@ -137,6 +142,13 @@ func c19Synthetic() []c19Fn {
 		{"v_f64", func(a ...float64) int { c19rec(); return len(a) }, "vlen"},
 		{"v_int_str", func(x int, a ...string) (int, int) { c19rec(x); return x, len(a) }, "vlen"},
 		{"v_iface_err", func(a ...interface{}) (interface{}, error) { c19rec(a...); return nil, nil }, "k:z|z"},
+		// defined types of primitive kind (time.Duration style)
+		{"d_dur", func() time.Duration { c19rec(); return 5 * time.Second }, "k:" + c19Canon(5*time.Second, 0)},
+		{"d_dur_echo", func(d time.Duration) time.Duration { c19rec(d); return d }, "echo"},
+		{"d_u8_echo", func(x c19U8) c19U8 { c19rec(x); return x }, "echo"},
+		{"d_f32", func() c19F32 { c19rec(); return 1.5 }, "k:" + c19Canon(c19F32(1.5), 0)},
+		{"d_name", func() c19Name { c19rec(); return "a" }, "k:" + c19Canon(c19Name("a"), 0)},
+		{"d_flag", func() (c19Flag, error) { c19rec(); return true, nil }, "k:" + c19Canon(c19Flag(true), 0) + "|z"},
 		// not a function at all
 		{"n_int", 5, "notfunc"},
 		{"n_nil", nil, "notfunc"},
@@ -249,12 +261,35 @@ func c19Canon(v interface{}, depth int) string {
 	if e, ok := v.(error); ok && e == c19Err {
 		return "e"
 	}
+	// a value of a defined type of primitive kind: N<type id>(<the value as its underlying type>)
+	rv := reflect.ValueOf(v)
+	if rv.Type().PkgPath() != "" {
+		var u interface{}
+		switch rv.Kind() {
+		case reflect.Int, reflect.Int8, reflect.Int16, reflect.Int32, reflect.Int64,
+			reflect.Uint, reflect.Uint8, reflect.Uint16, reflect.Uint32, reflect.Uint64, reflect.Uintptr,
+			reflect.Float32, reflect.Float64, reflect.Bool, reflect.String:
+			u = rv.Convert(c19Underlying[rv.Kind()]).Interface()
+		}
+		if u != nil {
+			return "N" + c19Hash(rv.Type().String()) + "(" + c19Canon(u, depth+1) + ")"
+		}
+	}
 	return "?" + strings.Map(func(r rune) rune {
 		if r == ' ' || r == '\t' || r == '\n' {
 			return '_'
 		}
 		return r
 	}, fmt.Sprintf("%T", v))
+}
+
+var c19Underlying = map[reflect.Kind]reflect.Type{
+	reflect.Int: reflect.TypeOf(int(0)), reflect.Int8: reflect.TypeOf(int8(0)), reflect.Int16: reflect.TypeOf(int16(0)),
+	reflect.Int32: reflect.TypeOf(int32(0)), reflect.Int64: reflect.TypeOf(int64(0)),
+	reflect.Uint: reflect.TypeOf(uint(0)), reflect.Uint8: reflect.TypeOf(uint8(0)), reflect.Uint16: reflect.TypeOf(uint16(0)),
+	reflect.Uint32: reflect.TypeOf(uint32(0)), reflect.Uint64: reflect.TypeOf(uint64(0)), reflect.Uintptr: reflect.TypeOf(uintptr(0)),
+	reflect.Float32: reflect.TypeOf(float32(0)), reflect.Float64: reflect.TypeOf(float64(0)),
+	reflect.Bool: reflect.TypeOf(false), reflect.String: reflect.TypeOf(""),
 }
 
 func c19Bits(f float64) string {
@@ -280,12 +315,11 @@ func c19Hash(s string) string {
 	return strconv.Itoa(int(h.Sum32()%900000) + 10)
 }
 
-// c19Ty encodes a reflect.Type in the model's type language. A named type of a
-// primitive kind is not in that language (the model would not know its Kind): refuse loudly.
+// c19Ty encodes a reflect.Type in the model's type language.
 func c19Ty(t reflect.Type) string {
 	if n, ok := c19KindNames[t.Kind()]; ok {
 		if t.PkgPath() != "" {
-			panic("C19: named primitive type in a bridged signature is not modelled: " + t.String())
+			return "N" + c19Hash(t.String()) + "(" + n + ")" // a defined type of primitive kind
 		}
 		return n
 	}
